@@ -10,6 +10,7 @@ def dispatch (name : String) (a : Array Float) (b : Array Bool) : Option (List F
   | "calculate_stokes_errors" => if a.size = 5 ∧ b.size = 0 then some (let r := (calculate_stokes_errors (α := Float) a[0]! a[1]! a[2]! a[3]! a[4]!); [r.1, r.2.1, r.2.2.1, r.2.2.2.1, r.2.2.2.2.1, r.2.2.2.2.2.1, r.2.2.2.2.2.2.1, r.2.2.2.2.2.2.2.1, r.2.2.2.2.2.2.2.2.1, r.2.2.2.2.2.2.2.2.2]) else none
   | "calculate_mdp99" => if a.size = 3 ∧ b.size = 1 then some ([(calculate_mdp99 (α := Float) a[0]! a[1]! a[2]! b[0]!)]) else none
   | "calculate_n_eff" => if a.size = 3 ∧ b.size = 0 then some (let r := (calculate_n_eff (α := Float) a[0]! a[1]! a[2]!); [r.1, r.2]) else none
+  | "calculate_n_eff_scalar" => if a.size = 3 ∧ b.size = 0 then some (let r := (calculate_n_eff_scalar (α := Float) a[0]! a[1]! a[2]!); [r.1, r.2]) else none
   | "weighted_average" => if a.size = 4 ∧ b.size = 1 then some ([(weighted_average (α := Float) a[0]! a[1]! a[2]! a[3]! b[0]!)]) else none
   | "pcube_iadd" => if a.size = 14 ∧ b.size = 0 then some (let r := (pcube_iadd (α := Float) a[0]! a[1]! a[2]! a[3]! a[4]! a[5]! a[6]! a[7]! a[8]! a[9]! a[10]! a[11]! a[12]! a[13]!); [r.1, r.2.1, r.2.2.1, r.2.2.2.1, r.2.2.2.2.1, r.2.2.2.2.2.1, r.2.2.2.2.2.2]) else none
   | "lc_iadd" => if a.size = 6 ∧ b.size = 0 then some (let r := (lc_iadd (α := Float) a[0]! a[1]! a[2]! a[3]! a[4]! a[5]!); [r.1, r.2.1, r.2.2]) else none
